@@ -212,7 +212,7 @@ func RunNames(fam *Family, tier string) int {
 			if len(vlines) < 10 {
 				rp := map[string]any{"property": prop, "kind": "name", "name": n.text, "name_classes": n.Name, "identifier_found": e.Ident,
 					"identifier_categories": e.Cats, "predicted_categories": r.Impl, "tag_carries_exact_name": e.TagOK,
-					"schema": map[string]any{"$defs": map[string]any{"D": map[string]any{"type": "object", "properties": map[string]any{n.text: map[string]any{"type": "integer"}}}}},
+					"schema":       map[string]any{"$defs": map[string]any{"D": map[string]any{"type": "object", "properties": map[string]any{n.text: map[string]any{"type": "integer"}}}}},
 					"how_to_rerun": "bin/vcheck replay C14 <this file>"}
 				b, _ := json.MarshalIndent(rp, "", " ")
 				p := filepath.Join(dir, fmt.Sprintf("seed%d-name%d.json", seed, r.L))
